@@ -25,7 +25,7 @@ fn opts(tier: Tier) -> GenOpts {
     }
 }
 
-pub const CAP: u64 = 20_000;
+pub const CAP: u64 = crate::harness::RECOVERY_CAP;
 
 impl Prop for C04 {
     fn id(&self) -> &'static str {
@@ -42,7 +42,7 @@ impl Prop for C04 {
         serde_json::to_value(c).unwrap()
     }
     fn rule(&self) -> String {
-        "AG without precedence, cycle-free, all rules productive (strata rand, lr1, repo); only grammars whose table has conflicts()==None are judged; 12 inputs each (near misses, random strings); sentences are skipped. Oracle: k = Earley first non-viable index; recovery off: no value, exactly one error at lexeme k (or zero-length end-of-input lexeme at the end of the last lexeme); recovery on (hooks: budget override + expansion cap 20000): errors[0] at the same lexeme. Evaluation = one (grammar, non-sentence). Non-trivial: k>=1 and the canonical LR(1) driver performs >=1 reduction on the offending lookahead or Pager merged states; distinct by hash(grammar,input).".into()
+        "AG without precedence, cycle-free, all rules productive (strata rand, lr1, repo); only grammars whose table has conflicts()==None are judged; 12 inputs each (near misses, random strings); sentences are skipped. Oracle: k = Earley first non-viable index; recovery off: no value, exactly one error at lexeme k (or zero-length end-of-input lexeme at the end of the last lexeme); recovery on (hooks: budget override + expansion cap 1500): errors[0] at the same lexeme. Evaluation = one (grammar, non-sentence). Non-trivial: k>=1 and the canonical LR(1) driver performs >=1 reduction on the offending lookahead or Pager merged states; distinct by hash(grammar,input).".into()
     }
     fn assumptions(&self) -> Vec<String> {
         vec!["Earley recogniser is the viable-prefix oracle; stidx() only required to be a valid state".into()]
